@@ -45,14 +45,10 @@ def _run_variant(args):
         var = project.variant(changed)
     except AnalysisError as e:
         return ("error", [str(e)])
-    mod = importlib.import_module(f"sa.checks.{prop.lower()}")
-    rep = Rm.Report(prop=prop, tier="quick")
+    from .runner import run_property
+
     try:
-        try:
-            mod.check(var, rep)
-        except Rm.Abort:
-            pass
-        rep.check_nonvacuous()
+        rep = run_property(prop, var, "quick")
     except AnalysisError as e:
         return ("error", [str(e)])
     except Exception as e:  # pragma: no cover - checker crash
